@@ -366,7 +366,7 @@ func TestC10RoundTripValues(t *testing.T) {
 // TestC10Testdata feeds every line of the repository's own corpus through the same oracle.
 func TestC10Testdata(t *testing.T) {
 	col := ev.For("C10").SetRule(c10Rule)
-	files, _ := filepath.Glob("/repo/testdata/*.jsonl")
+	files, _ := filepath.Glob(hx.RepoDir() + "/testdata/*.jsonl")
 	n := 0
 	for _, f := range files {
 		fh, err := os.Open(f)
@@ -409,7 +409,7 @@ func FuzzC10Decode(f *testing.F) {
 	for _, s := range c10Hostile {
 		f.Add([]byte(s))
 	}
-	files, _ := filepath.Glob("/repo/testdata/*.jsonl")
+	files, _ := filepath.Glob(hx.RepoDir() + "/testdata/*.jsonl")
 	for _, fn := range files {
 		b, err := os.ReadFile(fn)
 		if err != nil {
